@@ -122,4 +122,14 @@ theorem go_runs_agree (n : Nat) : goRun .primary n = goRun .alt n := by
 theorem go_reset_eq : Gen.CpuGo.Primary.Reset = Cpu.reset ∧ Gen.CpuGo.Alt.Reset = Cpu.reset :=
   ⟨Cpu.GoTie.Primary.Reset_eq, Cpu.GoTie.Alt.Reset_eq⟩
 
+/-- a native-mode state: registers zero, PC = $8000, E = 0, memory full of NOPs ($EA) -/
+def nopState : St :=
+  ⟨⟨0x8000, 0x01FF, 0, 0, 0, 0, 0, 0, 0, 0, 0, 0, false, false, true, true, false, false, false, false, false, false, 0, 0, false, 0, 0, 0, 0, 0, 0,
+    .Implied⟩, ⟨fun _ => 0xEA, []⟩⟩
+
+/-- non-vacuity: the premises of `go_step_refines` are met by a concrete state and latch value, for both packages -/
+example (v : Variant) : (latchNone v ≠ latchNMI v ∧ latchNone v ≠ latchIRQ v) ∧ nopState.r.E = false ∧
+    ¬ C01.DecimalArith (abs nopState) :=
+  ⟨latchNone_idle v, rfl, fun h => absurd h.1 (by decide)⟩
+
 end GoTie
